@@ -33,7 +33,9 @@ def m_fclamp(it, st, fr, t, args, ga):
     x, lo, hi = _num(args[0]), _num(args[1]), _num(args[2])
     if x.term.is_nan():
         return I.Num(NAN, x.ty)
-    return I.Num(t_min(t_max(x.term, lo.term, st.ctx, 'max'), hi.term, st.ctx, 'min'), x.ty)
+    # x is not NaN here and terms range over the reals: clamp(x, lo, hi) is the same term as x.max(lo).min(hi), and is
+    # built with the same tags so that the two spellings compare equal
+    return I.Num(t_min(t_max(x.term, lo.term, st.ctx, 'fmax'), hi.term, st.ctx, 'fmin'), x.ty)
 
 
 def m_fabs(it, st, fr, t, args, ga):
